@@ -314,26 +314,56 @@ class Runner:
                 fd_seen = [int(v) for v in fdg.data.ravel()]
                 fd_before = fdg.data.copy()
             nd = float(fdg.nodata)
-        case = {"nrows": nrows, "ncols": ncols, "flowdir": fd_seen, "field": None if field is None else fvals,
-                "nodata": nd if nd == nd else "nan", "cap": cap, "fd_dtype": fd_dtype, "f_dtype": f_dtype, "via": "wrapper",
-                "bounds": bool(bounds)}
+        return self.call_grids(fdg, fg, cap, tag, origin, {"fd_dtype": fd_dtype, "f_dtype": f_dtype, "bounds": bool(bounds)})
+
+    def call_grids(self, fdg, fg, cap, tag="", origin="gen", meta=None, history=None):
+        """one call of grid.accumulate on grid OBJECTS in whatever state they are now: the request to the model, the
+        oracle and the unchanged-input check are all evaluated on the state read here, just before the call"""
+        np, G, ctx = self.np, self.G, self.ctx
+        nrows, ncols = int(fdg.nrows), int(fdg.ncols)
+        n = nrows * ncols
+        fd_seen = [int(v) for v in np.asarray(fdg.data).ravel()]
+        fd_before = fdg.data.copy()
+        if fg is not None:
+            f_before = fg.data.copy()
+            fvals = [float(v) for v in np.asarray(fg.data, dtype=np.float64).ravel()]
+            nd = float(fg.nodata)
+            fshape = (int(fg.nrows), int(fg.ncols))
+        else:
+            fvals = [1.0] * n
+            nd = float(fdg.nodata)
+            fshape = (nrows, ncols)
+        meta = dict(meta or {})
+        case = {"nrows": nrows, "ncols": ncols, "flowdir": fd_seen, "field": None if fg is None else fvals,
+                "nodata": nd if nd == nd else "nan", "cap": cap, "fd_dtype": meta.get("fd_dtype", str(fdg.data.dtype)),
+                "f_dtype": meta.get("f_dtype", "float64" if fg is None else str(fg.data.dtype)), "via": "wrapper",
+                "bounds": bool(meta.get("bounds", False))}
+        if fshape != (nrows, ncols):
+            case["field_shape"] = list(fshape)
+        if history is not None:
+            case["history"] = history
+        res = None
         try:
             kw = {} if cap is None else {"max_accumulated_cells": cap}
             res = G.accumulate(fdg, fg, nprint=NPRINT, **kw)
             out = [float(v) for v in res.data.ravel()]
-            impl = ("ok", out)
-            if res.data.shape != (nrows, ncols) or float(res.nodata) != nd and nd == nd:
+            impl = ("ok", out, float(res.nodata), tuple(int(v) for v in res.data.shape),
+                    None if fg is None else [float(v) for v in np.asarray(fg.data, dtype=np.float64).ravel()])
+            if fshape == (nrows, ncols) and (res.data.shape != (nrows, ncols) or float(res.nodata) != nd and nd == nd):
                 ctx.finding("accumulate/result_shape_or_nodata", "result grid has another shape / no-data value than the field", case)
         except ValueError as e:
             m = re.search(r"c_hydrodiy_gis\.accumulate returns (\d+)", str(e))
             impl = ("err", self.err_kind(int(m.group(1))) if m else "other:" + str(e)[:80])
+        except AssertionError:
+            impl = ("err", "shape")       # the Cython wrapper's asserts on the three shapes
         except Exception as e:  # noqa
             impl = ("err", f"other:{type(e).__name__}:{str(e)[:80]}")
         capm = -1 if cap is None else cap
-        if field is None:
-            req = f"accunit {nrows} {ncols} {self.codes_tok} {C.ilist(fd_seen)} {capm} {C.f2h(nd)}"
+        head = f"gacc {nrows} {ncols} {self.codes_tok} {C.ilist(fd_seen)} {capm} {C.f2h(float(fdg.nodata))}"
+        if fg is None:
+            req = head + " none"
         else:
-            req = f"acc {nrows} {ncols} {self.codes_tok} {C.ilist(fd_seen)} {capm} {C.f2h(nd)} {C.flist(fvals)}"
+            req = head + f" {fshape[0]} {fshape[1]} {C.f2h(nd)} {C.flist(fvals)}"
         fl = Flow(nrows, ncols, fd_seen, self.offsets)
         self.reqs.append(req)
         self.info.append((case, impl, fvals, nd, self.mult(nrows, ncols, fd_seen, cap, fl)))
@@ -342,7 +372,13 @@ class Runner:
             ctx.finding("accumulate/input_altered/flowdir", "cell values of the flow-direction grid changed during the call", case)
         if fg is not None and not np.array_equal(fg.data.astype(np.float64), f_before.astype(np.float64), equal_nan=True):
             ctx.finding("accumulate/input_altered/field", "cell values of the accumulated field changed during the call", case)
-        self.oracle(case, nrows, ncols, fd_seen, fvals, field is None, nd, cap, impl, tag, origin, fl)
+        if fshape == (nrows, ncols) and len(fvals) == n:
+            self.oracle(case, nrows, ncols, fd_seen, fvals, fg is None, nd, cap, impl, tag, origin, fl)
+        else:
+            ctx.count(("shape", nrows, ncols, fshape), False, f"wrapper/{tag}/shape_mismatch")
+            if impl[0] == "ok":
+                pass        # a field of another shape accepted: not a clause of the property; the correspondence reports it
+        return res
 
     # -- the extension entry point on explicit buffers (accumulation buffer independent of the field)
     def kernel_case(self, nrows, ncols, fd, fvals, nodata, cap, acc0, tag=""):
